@@ -632,14 +632,39 @@ def run(ctx):
     # watchdog expiries are re-run in isolation, with the full period, before being believed
     again = [i for i, o in enumerate(obs) if o['result'] in ('hang', 'crash') and not cases[i].get('slow')
              and cases[i]['cls'] != 'corpus']     # (an unmodified program that needs longer is just not mutated)
-    # the short-limit family: only the six smallest expiries are confirmed (at 8 s); the others stay unconfirmed = inconclusive
+    # the short-limit family: only six expiries are confirmed (calibrated limit, below); the others stay unconfirmed = inconclusive
     quick_ones = sorted((i for i in again if cases[i].get('must_finish')), key=lambda i: len(cases[i]['files'][0][1]))
-    for i in quick_ones[6:]:
-        obs[i]['unconfirmed'] = True
-    again = [i for i in again if i not in set(quick_ones[6:])]
+    # (the three smallest, for a readable replay, and the three largest: a super-linear lexer needs the longest on those)
+    keep_quick = set(quick_ones[:3] + quick_ones[-3:])
+    for i in quick_ones:
+        if i not in keep_quick:
+            obs[i]['unconfirmed'] = True
+    again = [i for i in again if i not in (set(quick_ones) - keep_quick)]
     if again:
-        redo = run_cases(ctx, [dict(cases[i], id=f'redo{i}', timeout=8.0 if cases[i].get('must_finish') else WATCHDOG)
-                               for i in again])
+        # the confirmation limit of the short-limit family is calibrated on THIS machine at THIS moment: a valid two-line
+        # program with the same settings (stl, warm, width, version) is assembled first; a literal the lexer must refuse at
+        # once may take 10 x that time + 20 s, and when even the control does not finish the expiry stays inconclusive
+        # (on a loaded machine parsing the stl alone can take longer than any fixed number of seconds)
+        confirm = {}
+        quick_set = [i for i in again if cases[i].get('must_finish')]
+        if quick_set:
+            keys = sorted({(cases[i]['w'], cases[i]['v'], cases[i]['stl'], cases[i]['warm']) for i in quick_set})
+            ctl_cases = []
+            for n, (w_, v_, stl_, warm_) in enumerate(keys):
+                ctl_cases.append(dict(cases[quick_set[0]], id=f'ctl{n}', w=w_, v=v_, stl=stl_, warm=warm_, timeout=WATCHDOG,
+                                      files=[[cases[quick_set[0]]['files'][0][0], ';\n;\n'.encode().hex()]],
+                                      must_finish=False, require=None))
+            ctl_obs = run_cases(ctx, ctl_cases)
+            for k_, o_ in zip(keys, ctl_obs):
+                confirm[k_] = None if o_['result'] in ('hang', 'crash') else 10.0 * float(o_.get('secs') or 0.0) + 20.0
+        def limit_of(i):
+            if not cases[i].get('must_finish'):
+                return WATCHDOG
+            return confirm.get((cases[i]['w'], cases[i]['v'], cases[i]['stl'], cases[i]['warm']))
+        for i in [i for i in again if limit_of(i) is None]:
+            obs[i]['unconfirmed'] = True
+        again = [i for i in again if limit_of(i) is not None]
+        redo = run_cases(ctx, [dict(cases[i], id=f'redo{i}', timeout=limit_of(i)) for i in again])
         for i, o in zip(again, redo):
             obs[i] = o
     phases['campaign'] = round(time.time() - t0, 1)
@@ -750,7 +775,7 @@ def replay(ctx, path):
     c = dict(rp['case'])
     c['id'] = 'replay'
     c['text'] = rp.get('source', '')
-    c['timeout'] = 8.0 if c.get('must_finish') else WATCHDOG
+    c['timeout'] = 60.0 if c.get('must_finish') else WATCHDOG
     o = run_cases(ctx, [c])[0]
     print(f'[C14] replay of {path}')
     print(f'  input: w={c["w"]} version={c["v"]} stl={c["stl"]} source={rp.get("source", "")[:400]!r}')
